@@ -67,6 +67,10 @@ DEFAULT_BACKGROUND_COLORS: Dict[str, str] = {
   "#000000ff": "bg_black"
 }
 
+def escape_cue_text(text: str) -> str:
+  """Escapes the characters that are significant in WebVTT cue text"""
+  return text.replace("&", "&amp;").replace("<", "&lt;").replace(">", "&gt;")
+
 def is_element_bold(element: ContentElement) -> bool:
   """Returns whether the element text is bold"""
   font_weight: Optional[FontWeightType] = element.get_style(StyleProperties.FontWeight)
